@@ -225,4 +225,84 @@ theorem rebuild_canonical : ∀ (fuel : Nat) (g : EG), g.WF → (rebuild fuel g)
       simp only [hs] at hf
       exact ih (rebuildPass g) w hf
 
+/-! ### a canonical database is a fixpoint of the pass -/
+
+theorem canonRow_of_canon {g : EG} {d : Decl} {y : Row} (c : RowCanon g d y) : g.canonRow d y = y := by
+  obtain ⟨c1, c2⟩ := c
+  unfold ArgsCanon at c1
+  unfold OutCanon at c2
+  unfold EG.canonRow
+  rw [c1]
+  cases hd : d.outIsId with
+  | true => simp only [if_true]; rw [c2 hd]
+  | false => simp only [Bool.false_eq_true, if_false]
+
+/-- inserting a row whose key is not there yet appends it and touches nothing else -/
+theorem insertInto_fresh (g : EG) (d : Decl) : ∀ (rows : List Row) (r : Row), (∀ x ∈ rows, x.args ≠ r.args) →
+    insertInto g d rows r = (g, rows ++ [r]) := by
+  intro rows
+  induction rows with
+  | nil => intro r _; rfl
+  | cons x xs ih =>
+    intro r h
+    simp only [insertInto]
+    rw [if_neg (h x List.mem_cons_self)]
+    rw [ih r (fun y hy => h y (List.mem_cons_of_mem _ hy))]
+    rfl
+
+theorem rbFold_canon_id (g : EG) (d : Decl) : ∀ (todo done : List Row), (∀ y ∈ todo, RowCanon g d y) →
+    UniqueKeys (done ++ todo) → todo.foldl (rbStep d) (g, done) = (g, done ++ todo) := by
+  intro todo
+  induction todo with
+  | nil => intro done _ _; simp
+  | cons y ys ih =>
+    intro done hc hu
+    simp only [List.foldl_cons]
+    have hstep : rbStep d (g, done) y = (g, done ++ [y]) := by
+      show insertInto g d done (g.canonRow d y) = _
+      rw [canonRow_of_canon (hc y List.mem_cons_self)]
+      apply insertInto_fresh
+      intro x hx
+      unfold UniqueKeys at hu
+      rw [List.pairwise_append] at hu
+      exact hu.2.2 x hx y List.mem_cons_self
+    rw [hstep]
+    have := ih (done ++ [y]) (fun z hz => hc z (List.mem_cons_of_mem _ hz)) (by simpa using hu)
+    rw [this]; simp
+
+theorem setTable_self (g : EG) (f : Nat) : g.setTable f (g.table f) = g := by
+  unfold EG.setTable
+  by_cases hf : f < g.tables.size
+  · have : g.tables.set! f (g.table f) = g.tables := by
+      apply Array.ext
+      · simp
+      · intro i h1 h2
+        unfold EG.table
+        simp only [Array.set!_eq_setIfInBounds]
+        by_cases he : f = i
+        · subst he
+          rw [Array.getElem_setIfInBounds_self]
+          simp [Array.getD, hf]
+        · rw [Array.getElem_setIfInBounds_ne h2 he]
+    simp only [hf, if_true, this]
+  · simp only [hf, if_false]
+
+/-- **Rebuilding a canonical database changes nothing** (not the tables, not the union-find): the
+state a command leaves behind is a fixpoint of the rebuild. -/
+theorem rebuildTable_canonical_id {g : EG} (c : Canonical g) (f : Nat) : rebuildTable g f = g := by
+  rw [rebuildTable_eq]
+  have := rbFold_canon_id g (g.decl f) (g.table f) [] (c.rows f) (by simpa using c.keys f)
+  rw [this]
+  simp only [List.nil_append]
+  exact setTable_self g f
+
+theorem rebuildPass_canonical_id {g : EG} (c : Canonical g) : rebuildPass g = g := by
+  unfold rebuildPass
+  have key : ∀ (fs : List Nat), fs.foldl rebuildTable g = g := by
+    intro fs
+    induction fs with
+    | nil => rfl
+    | cons f fs ih => simp only [List.foldl_cons]; rw [rebuildTable_canonical_id c f]; exact ih
+  exact key _
+
 end EgglogVerif.EGraph
